@@ -58,8 +58,8 @@ using namespace Givaro;
 static bool B(const Integer& x) { return x != 0; }
 // per-case CPU-time watchdog (ITIMER_PROF counts the CPU time of this process: independent of the machine load): a call that does
 // not return within the budget ends the process with the line DOES-NOT-RETURN (every earlier line is already flushed: std::endl)
-// and exit status 42; the check re-runs that case alone with a larger budget before reporting it.  C11_CASE_CPU = seconds (default 20).
-static long case_budget = 20;
+// and exit status 42; the check re-runs that case alone with a larger budget before reporting it.  C11_CASE_CPU = seconds (default 10; the confirmation run uses 30).
+static long case_budget = 10;
 static void on_prof(int) { const char msg[] = "DOES-NOT-RETURN\n"; if (write(1, msg, sizeof(msg) - 1)) {} _exit(42); }
 static void arm(long sec) { struct itimerval t; t.it_interval.tv_sec = 0; t.it_interval.tv_usec = 0; t.it_value.tv_sec = sec; t.it_value.tv_usec = 0; setitimer(ITIMER_PROF, &t, 0); }
 static bool flags_touched = false;      // has this process called Rational::SetReduce / SetNoReduce yet?
